@@ -111,6 +111,17 @@ class Unit:
                         return y, 'staticmethod' in decos
         return None
 
+    def resolve_module_function(self, name):
+        """FunctionDef of the module-level (undecorated, non-generator) function `name` of this unit's file, from the current source; None if there is none"""
+        try:
+            tree = ast.parse(load_source(self.file, getattr(self, '_override', None)))
+        except (SyntaxError, FileNotFoundError):
+            return None
+        for y in tree.body:
+            if isinstance(y, ast.FunctionDef) and y.name == name and not y.decorator_list and not any(isinstance(z, (ast.Yield, ast.YieldFrom)) for z in ast.walk(y)):
+                return y
+        return None
+
     # -- hooks with defaults
     def setup(self, ex):
         raise NotImplementedError
